@@ -174,7 +174,7 @@ RECURSIVE MentionsLoopVar(_, _), HasNegLit(_)
 MentionsLoopVar(e, g) ==
     \/ (e.k = "ref" /\ e.a = <<>> /\ InLoop(g) /\ e.n = g.loop[1].n)
     \/ \E i \in DOMAIN e.a : MentionsLoopVar(e.a[i], g)
-HasNegLit(e) == (e.k = "un" /\ e.n = "-" /\ e.a[1].k = "lit") \/ (e.k = "lit" /\ e.v[1] < 0)
+HasNegLit(e) == (e.k = "un" /\ e.n = "-" /\ e.a[1].k = "lit") \/ (e.k = "lit" /\ e.n # "sci" /\ e.v[1] < 0)
                 \/ \E i \in DOMAIN e.a : HasNegLit(e.a[i])
 GetInteger(e, g) ==
     IF MentionsLoopVar(e, g) THEN [kind |-> "mx"]
@@ -243,7 +243,7 @@ FoldIf(parts, i, g) ==          \* exitIfExpression: start from the else value, 
          IN  IF IsRaise(c) THEN c ELSE IF IsRaise(t) THEN t ELSE IF IsRaise(r) THEN r ELSE LIte(c, t, r)
 
 Lower(e, g) ==
-    CASE e.k = "lit" -> LC(M11(e.v))
+    CASE e.k = "lit" -> LC(M11(IF e.n = "sci" THEN Und ELSE e.v))
       [] e.k = "ref" ->
             IF e.a = <<>> /\ InLoop(g) /\ e.n = g.loop[1].n THEN LIVar(e.n)
             ELSE IF g.fn THEN LSym(e.n, 1, 1)                                   \* function-local scalar
